@@ -672,6 +672,118 @@ def handleConfig : List String → Option String
   | _ => none
 
 
+/-! ## share command (state-space sharing in `Inference.get_coal`, C17 / C19) -/
+
+/-- `<L|B>;<pop=n,…>;<loci>;<n_unlinked>;<recombination rate>;<model class>;<model parameters q,…|->` -/
+def parseSSKey? (t : String) : Option Share.SSKey :=
+  match t.splitOn ";" with
+  | [cls, lin, nl, nu, r, m, ps] => do
+    let cls ← if cls == "L" then some Share.Cls.lineage else if cls == "B" then some Share.Cls.block else none
+    let lin ← parseList? (fun (kv : String) => match kv.splitOn "=" with
+      | [k, v] => v.toNat?.map fun n => (k, n)
+      | _ => none) lin
+    let nl ← nl.toNat?
+    let nu ← nu.toNat?
+    let r ← parseRat? r
+    let ps ← parseList? parseRat? ps
+    return { cls := cls, lineages := lin, nLoci := nl, nUnlinked := nu, recRate := r, model := m, params := ps }
+  | _ => none
+
+def showSSKey (k : Share.SSKey) : String :=
+  let cls := match k.cls with | .lineage => "L" | .block => "B"
+  s!"{cls};{showListOr (fun (p : String × Nat) => s!"{p.1}={p.2}") "," k.lineages};{k.nLoci};{k.nUnlinked};{showRat k.recRate};{k.model};{showListOr showRat "," k.params}"
+
+/-- `<key>@<epoch id>` -/
+def parseKeyAt? (t : String) : Option (Share.SSKey × Nat) :=
+  match t.splitOn "@" with
+  | [k, e] => do return (← parseSSKey? k, ← e.toNat?)
+  | _ => none
+
+/-- `g:<key>@<first epoch id>` (`get_coal`) | `q:<i>:<u<e>|s|d|c|t>` (operation on the state space of the i-th coalescent) -/
+def parseShareOp? (t : String) : Option (Share.Op Nat) :=
+  if t.startsWith "g:" then (parseKeyAt? (t.drop 2).toString).map fun (k, e) => .getCoal k e
+  else match t.splitOn ":" with
+    | ["q", i, op] => do return .query (← i.toNat?) (← parseCacheOp? op)
+    | _ => none
+
+/-- `share <variant c|f> <Inference.cache 0|1> <key of x0>@<first epoch id of x0> <ops…>` →
+for every read of `S` (in order) `<key>@<epoch id>` of the configuration and epoch whose rate matrix is returned
+(`compute k e := (k, e)`); the history is cut at the first `get_coal` that raises and `raise` is appended. -/
+def handleShare : List String → Option String
+  | v :: uc :: k0 :: ops => do
+    let v ← if v == "c" then some Share.EqVariant.current else if v == "f" then some Share.EqVariant.forgetsLocus else none
+    let uc ← if uc == "1" then some true else if uc == "0" then some false else none
+    let (key0, e0) ← parseKeyAt? k0
+    let ops ← ops.mapM parseShareOp?
+    let ok := ops.takeWhile fun | .getCoal k _ => !Share.getCoalRaises uc key0 k | .query _ _ => true
+    let (_, ans) := Share.run (fun (k : Share.SSKey) (e : Nat) => (k, e)) (Share.Inf.init v uc key0 e0) ok
+    let shown := (ans.filterMap id).map fun (k, e) => s!"{showSSKey k}@{e}"
+    let shown := if ok.length < ops.length then shown ++ ["raise"] else shown
+    return showListOr id " " shown
+  | _ => none
+
+
+/-! ## serial command (field-level serialisation, C18) -/
+
+/-- `<q>` | `T` | `F` | `N` | `s:<str>` | `f:<callable>` | `o:<opaque object>` | `S:<state space>:<cached matrices>` |
+`P:<name>~<q>,…` (parameter dict) | `R:<q>,…` (array) | `p:<value>` (dill pickle of a value) -/
+partial def parseVal? (t : String) : Option Serialize.Val :=
+  if t == "T" then some (.bool true) else if t == "F" then some (.bool false) else if t == "N" then some .none
+  else if t.startsWith "s:" then some (.str (t.drop 2).toString)
+  else if t.startsWith "f:" then some (.fn (t.drop 2).toString)
+  else if t.startsWith "o:" then some (.obj (t.drop 2).toString)
+  else if t.startsWith "p:" then (parseVal? (t.drop 2).toString).map .pickled
+  else if t.startsWith "S:" then
+    match (t.drop 2).toString.splitOn ":" with
+    | [id, n] => n.toNat?.map fun n => .space id n
+    | _ => none
+  else if t.startsWith "P:" then
+    (parseList? (fun (kv : String) => match kv.splitOn "~" with
+      | [k, v] => (parseRat? v).map fun q => (k, q)
+      | _ => none) (t.drop 2).toString).map .point
+  else if t.startsWith "R:" then (parseList? parseRat? (t.drop 2).toString).map .rats
+  else (parseRat? t).map .rat
+
+partial def showVal : Serialize.Val → String
+  | .rat q => showRat q
+  | .bool b => if b then "T" else "F"
+  | .str s => s!"s:{s}"
+  | .none => "N"
+  | .fn n => s!"f:{n}"
+  | .pickled v => s!"p:{showVal v}"
+  | .obj id => s!"o:{id}"
+  | .space id n => s!"S:{id}:{n}"
+  | .point p => "P:" ++ showListOr (fun (kv : String × Rat) => s!"{kv.1}~{showRat kv.2}") "," p
+  | .rats l => "R:" ++ showListOr showRat "," l
+
+/-- `serial <Coalescent.__setstate__ c|d> <Inference.__getstate__ i|x> <coal|inf> key=val …` (the `__dict__` in insertion
+order) → the `__dict__` after `from_json(to_json())` with a lossless codec, `key=val` sorted by key (`fail` if a step
+raises); for `inf` followed by ` | x0=<start point of the loaded object>` where a draw from generator `g` is shown as
+`s:draw(<g>)`.  Variants: `c`/`i` pinned, `d` defaults override the saved values, `x` the cached `x0` is not saved. -/
+def handleSerial : List String → Option String
+  | sv :: gv :: kind :: items => do
+    let sv ← if sv == "c" then some Serialize.SetVariant.current else if sv == "d" then some Serialize.SetVariant.defaultsOverride else none
+    let gv ← if gv == "i" then some Serialize.GetVariant.current else if gv == "x" then some Serialize.GetVariant.dropsCachedX0 else none
+    let d ← items.mapM fun (t : String) => match t.splitOn "=" with
+      | [k, v] => (parseVal? v).map fun v => (k, v)
+      | _ => none
+    if !(d.map (·.1)).eraseDups.length == d.length then none
+    let shown (d : Serialize.PyDict) : String :=
+      showListOr (fun (kv : String × Serialize.Val) => s!"{kv.1}={showVal kv.2}") " " (d.toArray.qsort (fun a b => a.1 < b.1)).toList
+    if kind == "coal" then
+      match Serialize.fromJsonCoalescent sv some (Serialize.toJsonCoalescent sv id d).1 with
+      | some d' => return shown d'
+      | none => return "fail"
+    else if kind == "inf" then
+      match (Serialize.toJsonInference gv id d).1.bind (Serialize.fromJsonInference some) with
+      | some d' =>
+        let draw : Serialize.Val → Serialize.Val × Serialize.Val := fun g => (.str s!"draw({showVal g})", .obj s!"{showVal g}'")
+        return s!"{shown d'} | x0={showVal (Serialize.x0Of d' draw)}"
+      | none => return "fail"
+    else none
+  | _ => none
+
+
 def handle (c : Ctx) (line : String) : Ctx × String :=
   let toks := (line.trimAscii.toString.splitOn " ").filter (· != "")
   let bad := (c, "bad-request")
@@ -882,6 +994,8 @@ def handle (c : Ctx) (line : String) : Ctx × String :=
     | none => bad
   | "api" :: toks => (c, (handleApi toks).getD "bad-request")
   | "memo" :: toks => (c, (handleMemo toks).getD "bad-request")
+  | "share" :: toks => (c, (handleShare toks).getD "bad-request")
+  | "serial" :: toks => (c, (handleSerial toks).getD "bad-request")
   | ["selftest"] =>
     -- exp of a nilpotent matrix is exact; exp(A)·exp(A) = exp(2A); rows of exp(Q) sum to one
     let nil := FMat.ofFn 3 fun i j => if j = i + 1 then 1 else 0
